@@ -838,7 +838,8 @@ func (env *Env) quantThroughMacros(e Expr) bool {
 
 
 type hyp struct {
-	gen func(inst string) string
+	gen  func(inst string) string
+	base string // for copy definitions: the destination offset; instances are also made at base + skolem
 }
 
 func (vc *VC) addHyp(gen func(inst string) string) {
@@ -928,6 +929,10 @@ func (vc *VC) instantiateFor(texts ...string) []string {
 			inst := h.gen(c)
 			if inst != "true" {
 				out = append(out, "(assert "+inst+")")
+			}
+			if h.base != "" && strings.HasPrefix(c, "sk_") {
+				// the copy's k-th cell: instance at destination offset + skolem
+				out = append(out, "(assert "+h.gen(bvAdd(h.base, c))+")")
 			}
 		}
 	}
